@@ -178,13 +178,35 @@ def r6(ctx):
     f = method_or_fail(ctx, ci, '__eq__')
     ev = evaluator(ctx)
     out = ev.run(f, [_pc(ctx, 'p'), _pc(ctx, 'q', typed=False)], {})
-    vals = [v for _, v in out.returns]
-    txt = show(vals, 600)
-    want = App('numpy.allclose', (Tup((sym('p.x'), sym('p.y')), 'list'), Tup((sym('q.x'), sym('q.y')), 'list')))
-    if any(same(v, want) for v in vals) and any(isinstance(v, Const) and v.v is False for v in vals):
-        ctx.ok('PixCoord.__eq__', 'np.allclose([x, y], [x\', y\']) (default tolerances); False for other types')
+    A = Tup((sym('p.x'), sym('p.y')), 'list')
+    B = Tup((sym('q.x'), sym('q.y')), 'list')
+    fwd, bwd = App('numpy.allclose', (A, B)), App('numpy.allclose', (B, A))
+    probs = []
+    closeness = [(pc, v) for pc, v in out.returns if not isinstance(v, Const)]
+    falses = [(pc, v) for pc, v in out.returns if isinstance(v, Const) and v.v is False]
+    if not falses or any(isinstance(v, Const) and v.v is True for _, v in out.returns):
+        probs.append('no False return for other types / an unconditional True')
+    if len(closeness) != 1:
+        probs.append(f'{len(closeness)} closeness returns')
     else:
-        ctx.bad('PixCoord.__eq__', 'allclose', f'equality is {txt}', f.loc())
+        pc, v = closeness[0]
+        terms = list(v.args) if isinstance(v, BoolT) and v.op == 'and' else [v]
+        terms = [t.args[0] if isinstance(t, BoolT) and t.op == 'truthy' else t for t in terms]
+        if not all(same(t, fwd) or same(t, bwd) for t in terms) or not terms:
+            probs.append(f'equality is {show(v, 200)}, not np.allclose on [x, y] of both')
+        elif not (any(same(t, fwd) for t in terms) and any(same(t, bwd) for t in terms)):
+            probs.append('the tolerance test np.allclose(a, b) is |a-b| <= atol + rtol*|b|, not symmetric in its arguments: '
+                         'p == q and q == p can differ at the tolerance edge (PixCoord(100000, 5) vs PixCoord(100001.00001, 5)); '
+                         'both orders must hold')
+        guard = show(ev.conj(pc), 600)
+        if 'numpy.shape' not in guard and '.shape' not in guard:
+            probs.append('no shape test guards the comparison: coordinate arrays of different length either broadcast '
+                         '(a 1-vertex polygon equals one with 3 identical vertices) or raise ValueError instead of comparing '
+                         'unequal')
+    if probs:
+        ctx.bad('PixCoord.__eq__', 'allclose', '; '.join(probs), f.loc())
+    else:
+        ctx.ok('PixCoord.__eq__', 'False for other types and other shapes; np.allclose([x, y], [x\', y\']) in both orders')
 
 
 def r7(ctx):
